@@ -495,21 +495,22 @@ def case_calling_convention(prop, seed, cls):
     return Case(label, fn)
 
 
-def case_tightness(prop, seed, cls, Dy, Dx, Da, Dk, eps_list=None):
-    """gap(eps) = true - bound for input weights eps*w: quadratic decay, zero at zero weights"""
-    label = f"hetero/tightness/{cls}/Dy{Dy}Dx{Dx}Da{Da}Dk{Dk}"
+def case_tightness(prop, seed, cls, Dy, Dx, Da, Dk, eps_list=None, N=1):
+    """gap(eps) = true - bound for input weights eps*w: quadratic decay, zero at zero weights.
+    N > 1: N observations paired with N prior components (the documented calling convention); every pair is judged on its own"""
+    label = f"hetero/tightness/{cls}/Dy{Dy}Dx{Dx}Da{Da}Dk{Dk}" + (f"/N{N}" if N != 1 else "")
 
     def fn(m):
         rng = gen.rng_path(seed, label)
         fails = []
         M, b, A, W = gen_params(rng, Dy, Dx, Da, Dk, 1.0)
-        S, mu = gen_px(rng, 1, Dx, hi=1.5)
-        ys = gen.points(rng, 1, Dy)
+        S, mu = gen_px(rng, N, Dx, hi=1.5)
+        ys = gen.points(rng, N, Dy)
         wood = (WOOD + ":") if Da > Dy else ""
-        p = m.pdf(1, Dx, S, mu)
+        p = m.pdf(N, Dx, S, mu)
         y = m.arr(ys)
         gaps = {}
-        base = dict(Sigma_x=S.tolist(), mu_x=mu.tolist(), y=ys.tolist())
+        base = dict(Sigma_x=S.tolist(), mu_x=mu.tolist(), y=ys.tolist(), N=N)
         # [hetero-trunc] zero input weights make h degenerate for the step / rectified-linear classes: `case_degenerate`
         default = (1e-1, 1e-2, 1e-3, 0.0) if cls in LINKS else (1e-1, 1e-2, 1e-3)
         for eps in (eps_list or default):
@@ -520,31 +521,36 @@ def case_tightness(prop, seed, cls, Dy, Dx, Da, Dk, eps_list=None):
             if raised(m, r):
                 fails.append(failure(prop, f"integrate_log_conditional_y:{cls}", f"raised: {m.impl[-1][1:]}", params=dict(ref.params(), eps=eps, **base)))
                 return fails
-            lb = float(np.asarray(m.regs[r])[0])
-            if eps == 0.0:
-                true, qerr = float(homoscedastic_expect(ref, ys[0], mu[0], S[0])), 1e-12
-            else:
-                true, qerr = expect_for(ref)(ref, ys[0], mu[0], S[0])
-            gaps[eps] = (true - lb, qerr, ref)
-        g0, _, ref0 = gaps.get(0.0, (0.0, 0.0, None))
-        if not abs(g0) <= 1e-9 * max(1.0, abs(g0 + 1.0)):
-            fails.append(failure(prop, f"{wood}integrate_log_conditional_y:zero-weights:{cls}",
-                                 "bound differs from the closed-form E[ln p(y|x)] at zero input weights (homoscedastic limit)",
-                                 expected=0.0, got=g0, deviation=g0, params=dict(ref0.params(), eps=0.0, **base)))
-        for eps in (1e-1, 1e-2):
-            if eps not in gaps or eps / 10 not in gaps:
-                continue
-            g, qe, ref = gaps[eps]
-            g10, qe10, _ = gaps[eps / 10]
-            if g < -(1e-7 + qe) or g10 < -(1e-7 + qe10):
-                fails.append(failure(prop, f"{wood}integrate_log_conditional_y:bound:{cls}", "bound exceeds the true expectation",
-                                     expected=0.0, got=[g, g10], deviation=[-g, -g10], params=dict(ref.params(), eps=eps, **base)))
-            elif not g10 <= g / 30.0 + 10 * (qe + qe10) + 1e-12:
-                fails.append(failure(prop, f"{wood}integrate_log_conditional_y:tightness:{cls}",
-                                     "gap to the true value does not decay quadratically: gap(eps/10) > gap(eps)/30",
-                                     expected=g / 30.0, got=g10, deviation=g10 / g if g != 0 else None,
-                                     params=dict(ref.params(), eps=eps, gaps={str(k): v[0] for k, v in gaps.items()}, **base)))
-        m.meta[-1]["gaps"] = {str(k): float(v[0]) for k, v in gaps.items()}
+            lbs = np.asarray(m.regs[r], dtype=float).reshape(-1)
+            if lbs.shape != (N,):
+                fails.append(failure(prop, f"integrate_log_conditional_y:{cls}", f"{lbs.shape[0]} values for {N} (observation, prior) pairs", params=dict(ref.params(), eps=eps, **base)))
+                return fails
+            for n in range(N):
+                if eps == 0.0:
+                    true, qerr = float(homoscedastic_expect(ref, ys[n], mu[n], S[n])), 1e-12
+                else:
+                    true, qerr = expect_for(ref)(ref, ys[n], mu[n], S[n])
+                gaps[(eps, n)] = (true - float(lbs[n]), qerr, ref)
+        for n in range(N):
+            g0, _, ref0 = gaps.get((0.0, n), (0.0, 0.0, None))
+            if not abs(g0) <= 1e-9 * max(1.0, abs(g0 + 1.0)):
+                fails.append(failure(prop, f"{wood}integrate_log_conditional_y:zero-weights:{cls}",
+                                     "bound differs from the closed-form E[ln p(y|x)] at zero input weights (homoscedastic limit)",
+                                     expected=0.0, got=g0, deviation=g0, params=dict(ref0.params(), eps=0.0, pair=n, **base)))
+            for eps in (1e-1, 1e-2):
+                if (eps, n) not in gaps or (eps / 10, n) not in gaps:
+                    continue
+                g, qe, ref = gaps[(eps, n)]
+                g10, qe10, _ = gaps[(eps / 10, n)]
+                if g < -(1e-7 + qe) or g10 < -(1e-7 + qe10):
+                    fails.append(failure(prop, f"{wood}integrate_log_conditional_y:bound:{cls}", "bound exceeds the true expectation",
+                                         expected=0.0, got=[g, g10], deviation=[-g, -g10], params=dict(ref.params(), eps=eps, pair=n, **base)))
+                elif not g10 <= g / 30.0 + 10 * (qe + qe10) + 1e-12:
+                    fails.append(failure(prop, f"{wood}integrate_log_conditional_y:tightness:{cls}",
+                                         "gap to the true value does not decay quadratically: gap(eps/10) > gap(eps)/30",
+                                         expected=g / 30.0, got=g10, deviation=g10 / g if g != 0 else None,
+                                         params=dict(ref.params(), eps=eps, pair=n, gaps={f"{k[0]}/{k[1]}": v[0] for k, v in gaps.items()}, **base)))
+        m.meta[-1]["gaps"] = {f"{k[0]}/{k[1]}": float(v[0]) for k, v in gaps.items()}
         return fails
     return Case(label, fn)
 
@@ -691,6 +697,9 @@ def c17_cases(seed, tier):
         for cls in LINKS:
             out.append(case_tightness("C17", seed, cls, Dy, Dx, Da, Dk))
     out.append(case_tightness("C17", seed, "exp", 1, 1, 2, 1))      # Da > Dy: the shared Woodbury assumption
+    # N observations paired with N prior components: each pair on its own (tight at zero weights, quadratic decay)
+    out.append(case_tightness("C17", seed, "exp", 2, 1, 2, 2, eps_list=(1e-1, 1e-2, 0.0), N=3))
+    out.append(case_tightness("C17", seed, "coshm1", 1, 1, 1, 1, eps_list=(1e-1, 1e-2, 0.0), N=2))
     if not quick:
         out.append(case_tightness("C17", seed, "coshm1", 2, 1, 3, 2))
     out.extend(c17_trunc_cases(seed, tier))      # [hetero-trunc]
